@@ -51,6 +51,10 @@ def _replay(prop, ob, kind, role):
         if not ok:
             return True, path, "scenario test itself fails on the real code:\n" + out[-800:]
         return False, path, "real system-call trace satisfies the predicate"
+    if kind == "crash":
+        import crashplay
+        rep, out = crashplay.crash_replay(dict(ob.cex or {}))
+        return rep, path, out
     if kind.startswith("probe:"):
         test = kind.split(":", 1)[1]
         with vlib.Scratch("native", tag=f"{prop}-probe") as scr:
